@@ -198,6 +198,14 @@ def make_totality(eng, spec):
             idx = e.problem_mark.index
             eng.require((idx >= 0) & (idx <= n) if isinstance(idx, SInt) else (0 <= idx <= n), "error-position")
             eng.note("tokenize_error")
+            # the same error with the documented line / column offsets applied (as a caller inside a larger file passes them)
+            try:
+                opts.options_to_items(s, 3, 2)
+                eng.fail("offset-error", "an error without offsets, none with offsets (3, 2)")
+            except opts.TokenizeError as e2:
+                eng.require((e2.problem_mark.line == e.problem_mark.line + 3) & (e2.problem_mark.column == e.problem_mark.column + 2) & (e2.problem_mark.index == idx), "offset-error", "position not shifted by the offsets")
+            except Exception as exc:  # noqa
+                eng.fail("offset-error", "options_to_items(text, 3, 2) raised %s: %s" % (type(exc).__name__, exc))
             return "TokenizeError"
         ok = isinstance(items, list)
         for kv in items:
@@ -252,6 +260,8 @@ def _templates(nbody):
         T.append(("block%s" % h, ["k: %s\n" % h, (nbody, BODY)]))
     T.append(("block-header-sym", ["k: |", (2, "+-0129 #a"), "\n a\n"]))
     T.append(("block-indent-sym", ["k: >\n", (2, " \n"), "a\n", (2, " \n\t"), "b\n", (1, " \n"), "c"]))
+    # folded lines that start with white space other than space / tab (content, so folded like any other text)
+    T.append(("block-fold-unicode-space", ["k: >\n a\n ", (1, " \u3000\u00a0\ta"), "b\n ", (1, " \u2003\u3000a"), "c\n"]))
     # double-quoted escapes
     T.append(("dq-escape-letter", ['k: "', (1, None), (1, None), '"']))
     T.append(("dq-x", ['k: "\\x', (2, None), '"']))
@@ -321,6 +331,16 @@ def replay(label, witness):
         items, err = None, e
     except Exception as e:  # noqa: BLE001
         return ("C07/totality:%s" % type(e).__name__, "options_to_items(%r) raised %s: %s" % (text, type(e).__name__, e))
+    if err is not None:
+        try:
+            real.options_to_items(text, 3, 2)
+            return ("C07/offset-error", "options_to_items(%r) raises TokenizeError, with offsets (3, 2) it does not" % (text,))
+        except real.TokenizeError as e2:
+            if (e2.problem_mark.line, e2.problem_mark.column, e2.problem_mark.index) != (err.problem_mark.line + 3, err.problem_mark.column + 2, err.problem_mark.index):
+                return ("C07/offset-error", "options_to_items(%r, 3, 2): error position %r, without offsets %r" % (text, e2.problem_mark, err.problem_mark))
+            str(e2)
+        except Exception as e:  # noqa: BLE001
+            return ("C07/offset-error:%s" % type(e).__name__, "options_to_items(%r, 3, 2) raised %s: %s (TokenizeError without offsets)" % (text, type(e).__name__, e))
     if err is not None and not (0 <= err.problem_mark.index <= len(text)):
         return ("C07/error-position", "TokenizeError position %r outside text of length %d for %r" % (err.problem_mark.index, len(text), text))
     if label.startswith("equiv") or label.startswith("uncaught"):
